@@ -820,7 +820,22 @@ fn images(rep: &mut Rep, rng: &mut Rng, p: &EioParams, cfg: &Cfg, r: &Recorded, 
             // nested crash: crash again inside the recovery of this image
             if process_crash && nested_left > 0 && !rep.diverged && k > meta_pre && rng.chance(1, 3) {
                 nested_left -= 1;
-                nested(rep, rng, p, cfg, r, scratch, &f, &apply, &ctx);
+                nested(rep, rng, p, cfg, r, scratch, &f, &apply, &ctx, false);
+            }
+            // power loss inside the recovery: the image in which everything written so far reached
+            // the disk is what a restarted process finds; its recovery is recorded and power is lost
+            // again inside it (everything the recovery wrote is volatile until the recovery fsyncs it).
+            // Uses its own derived PRNG so the main stream of the case is the same as without it.
+            if !process_crash
+                && (volatile == 0 || matches!(pol, Policy::KeepAllVolatile))
+                && nested_left > 0
+                && !rep.diverged
+                && k > meta_pre
+                && derive(rep.case_seed, &[rep.op_index, k as u64, 4242]) % 3 == 0
+            {
+                nested_left -= 1;
+                let mut nrng = Rng::new(derive(rep.case_seed, &[rep.op_index, k as u64, 4243]));
+                nested(rep, &mut nrng, p, cfg, r, scratch, &f, &apply, &ctx, true);
             }
         }
     }
@@ -829,7 +844,7 @@ fn images(rep: &mut Rep, rng: &mut Rng, p: &EioParams, cfg: &Cfg, r: &Recorded, 
 
 /// Record the recovery (`Nomt::open`) of an image and crash inside it.
 #[allow(clippy::too_many_arguments)]
-fn nested(rep: &mut Rep, rng: &mut Rng, p: &EioParams, cfg: &Cfg, r: &Recorded, scratch: &Path, f: &shadow::Folded, apply: &[Option<usize>], ctx: &str) {
+fn nested(rep: &mut Rep, rng: &mut Rng, p: &EioParams, cfg: &Cfg, r: &Recorded, scratch: &Path, f: &shadow::Folded, apply: &[Option<usize>], ctx: &str, power: bool) {
     let prop = p.prop;
     let nbase = scratch.join("nbase");
     let nlive = scratch.join("nlive");
@@ -854,15 +869,25 @@ fn nested(rep: &mut Rep, rng: &mut Rng, p: &EioParams, cfg: &Cfg, r: &Recorded, 
     let total = ev.len();
     for k2 in pick_boundaries(rng, &ev, 8) {
         let f2 = fold(&ev, k2);
-        for pol in [Policy::ProcessCrash { inflight: InFlight::Dropped }, Policy::ProcessCrash { inflight: InFlight::Applied }] {
-            let (a2, _) = choose(&f2, &pol);
+        let pols = if power {
+            vec![Policy::LoseAllVolatile, Policy::Random(rng.next_u64()), Policy::Random(rng.next_u64())]
+        } else {
+            vec![Policy::ProcessCrash { inflight: InFlight::Dropped }, Policy::ProcessCrash { inflight: InFlight::Applied }]
+        };
+        for pol in pols {
+            let (a2, vol2) = choose(&f2, &pol);
             if materialise(&nbase, &nimg, &f2, &a2).is_err() {
                 continue;
             }
-            rep.eval_keyed(prop, k2 > 0 && k2 < total, derive(rep.case_seed, &[rep.op_index, 7777, k2 as u64, nvcore::rng::tag(&format!("{pol:?}{ctx}"))]));
-            let ctx2 = format!("{ctx} THEN crash at position {k2}/{total} of the recovery");
+            let nontrivial = if power { vol2 > 0 } else { k2 > 0 && k2 < total };
+            rep.eval_keyed(prop, nontrivial, derive(rep.case_seed, &[rep.op_index, 7777, k2 as u64, nvcore::rng::tag(&format!("{pol:?}{ctx}"))]));
+            let ctx2 = if power {
+                format!("{ctx} THEN power loss at position {k2}/{total} of the recovery, policy {pol:?}")
+            } else {
+                format!("{ctx} THEN crash at position {k2}/{total} of the recovery")
+            };
             check_image(rep, rng, prop, &nimg, cfg, &r.pre, &r.post, Req::Either, &r.keys, &ctx2, false);
-            rep.feat("nested_images_checked", 1);
+            rep.feat(if power { "nested_power_loss_images_checked" } else { "nested_images_checked" }, 1);
             if rep.diverged {
                 break;
             }
